@@ -1,0 +1,18 @@
+//go:build verif
+
+// Contracts for node groups (read as text by /verif's govc; comment-only). The filters are
+// lo.PickBy with a closure; their meaning is assumed.
+
+package node
+
+//@ trusted func (n Group) WhereActive() (g Group)
+//@   ensures g != nil && __fresh(g)
+//@   ensures forall k Key :: __in(g, k) == (__in(n, k) && n[k].State != StateLeft)
+//@   ensures forall k Key :: __in(g, k) ==> g[k] == n[k]
+//@   modifies nothing
+//@ trusted func (n Group) WhereState(state State) (g Group)
+//@   ensures g != nil && __fresh(g)
+//@   ensures forall k Key :: __in(g, k) == (__in(n, k) && n[k].State == state)
+//@   ensures forall k Key :: __in(g, k) ==> g[k] == n[k]
+//@   ensures len(g) <= len(n)
+//@   modifies nothing
